@@ -268,7 +268,11 @@ func genChallengeKey(rngx *rand.Rand) B {
 func genExtOffer(rng *rand.Rand) []B {
 	opts := []string{"permessage-deflate", "permessage-deflate; client_max_window_bits", "permessage-deflate; server_no_context_takeover; client_no_context_takeover",
 		"x-webkit-deflate-frame", "foo, permessage-deflate", "permessage-deflate; client_max_window_bits=\"15\"", "permessage-deflate;server_max_window_bits=10, bar;x=y",
-		"PERMESSAGE-DEFLATE", "permessage-deflate-x", "foo; a=\"b\\\"c\", permessage-deflate", "permessage-deflate; a=\"unterminated", ";", "permessage-deflate junk", ""}
+		"PERMESSAGE-DEFLATE", "permessage-deflate-x", "foo; a=\"b\\\"c\", permessage-deflate", "permessage-deflate; a=\"unterminated", ";", "permessage-deflate junk", "",
+		// quoted parameter values that contain commas, escaped quotes and escaped backslashes: what looks like a list
+		// element inside the quotes is no offer; what follows a properly closed quoted string is
+		"foo; x=\"a\\\", permessage-deflate, b\\\"\"", "foo; x=\"a, permessage-deflate\"", "foo; x=\"a\\\\\", permessage-deflate",
+		"x-custom; note=\"a\\\", permessage-deflate, b\\\"\"; k=v", "foo; x=\"\\\"\", permessage-deflate; client_no_context_takeover"}
 	n := rng.Intn(3)
 	var out []B
 	for i := 0; i < n; i++ {
